@@ -129,7 +129,10 @@ SessionModel(e) == LET ps == Rec[vreset].psr IN
          ELSE IF v = "none" THEN (IF e.res = "notfound" THEN "asmodel" ELSE "notmodel")
          ELSE IF v \in BadPred THEN (IF e.res # "notfound" THEN "asmodel" ELSE "notmodel")
          ELSE IF e.res = "ok" /\ v \in DOMAIN voptok /\ voptok[v] = e.tok THEN "asmodel" ELSE "notmodel"
-T_SRead == /\ Is("SRead") /\ UNCHANGED mvars /\ Keep
+\* (since 9c6ca29 read_file writes pending changes out first: modelled as Flush so that the hook's dirty flag
+\* agrees; nothing in the verdict depends on it - Close makes the session durable anyway)
+T_SRead == /\ Is("SRead") /\ Keep
+           /\ IF vopen /\ vdirty THEN Flush ELSE UNCHANGED mvars
            /\ IF vopen /\ ((vsess[Ev.n] = None /\ Ev.res = "notfound") \/ (vsess[Ev.n] # None /\ Ev.res = "ok" /\ Ev.tok = vsess[Ev.n]))
               THEN TRUE
               ELSE PrintT(<<"BAD", tl, "sessionread:" \o SessionWhy(Ev), SessionModel(Ev), "">>)
